@@ -224,4 +224,24 @@ example :
       = loadConf (.node []) [("05_z", .node [("a", .leaf "2")]), ("10_a", .node [("a", .leaf "1")])] :=
   load_order_independent _ _ _ (List.Perm.swap _ _ _) (by simp)
 
+
+/-- an empty fragment file (`{}`) changes nothing: merging the empty mapping into a configuration is the identity -/
+theorem merge_empty_fragment (b : KVs) : merge (.node b) (.node []) = .node b := by
+  simp [merge, combine, mergeKVs]
+
+/-- hence any number of empty fragments, whatever their names, leave the base configuration as it is -/
+theorem load_empty_fragments (b : KVs) (l : List (String × Cfg)) (hl : ∀ f ∈ l, f.2 = .node []) :
+    loadConf (.node b) l = .node b := by
+  unfold loadConf
+  have hs : ∀ f ∈ sortByName l, f.2 = .node [] := by
+    intro f hf
+    exact hl f ((sort_is_sorted_perm l).1.mem_iff.mp hf)
+  generalize sortByName l = sl at hs
+  induction sl with
+  | nil => rfl
+  | cons x xs ih =>
+    simp only [List.foldl_cons]
+    rw [hs x (List.mem_cons_self), merge_empty_fragment]
+    exact ih (fun f hf => hs f (List.mem_cons_of_mem _ hf))
+
 end Arim.C20
